@@ -26,6 +26,9 @@ META = {
 }
 
 ELEMENT_BASE = '_LexiconElement'
+# the only calls that may be scoped by the expand lexicons: finding the expand-side *sources* and their relations
+EXPAND_OK = {('Synset._iter_expanded_relations', 'find_synsets'),
+             ('Synset._iter_expanded_relations', 'get_synset_relations')}
 # element methods that intentionally leave the element's scope: translation targets another lexicon by design
 TRANSLATE_EXEMPT = {'Synset.translate': 'translation looks up a different target lexicon by construction '
                                         '(lexicon/lang arguments), guarded by the ILI (C10-R3)'}
@@ -157,8 +160,8 @@ def r2_callsite_provenance(ctx, res):
                                        f'(searches every installed lexicon)')
                 continue
             extra = set()
-            if ctxname == 'element' and caller.qualname == 'Synset._iter_expanded_relations':
-                extra = {'expand'}   # expand sources (C12); which call may use it is checked in C12-R1
+            if (caller.qualname, qf.name) in EXPAND_OK:
+                extra = {'expand'}   # expand sources only (C12)
             bad = {t for t in tags if t not in allowed | extra}
             if bad or not tags:
                 res.find(key, loc,
